@@ -82,6 +82,7 @@ def check(an, rep, tier):
     ds = (2, 3) if tier == 'quick' else (2, 3, 4, 5)
     public = [f for f in prog.public]
     n_funcs = 0
+    n_kind = [0]
     for fn in public:
         q = fn.qualname
         if fn.cls is not None and fn.name != '__init__':
@@ -99,12 +100,62 @@ def check(an, rep, tier):
             for d in ds:
                 run = an.run(q, vi, d)
                 _check_run(rep, fn, run)
+                # the same call with the OTHER documented kind of each
+                # argument: mode sizes as an ndarray instead of a list,
+                # numbers as 0-d arrays (mutable!), integers as NumPy
+                # integers.  The purity rules are applied again; a truth /
+                # membership test that only works for the list kind and an
+                # input that is now rejected on every path are reported.
+                for mode in ('ashape', 'arr0', 'npint'):
+                    v2 = {k_: _other_kind(x_, mode)
+                          for k_, x_ in variant.items()}
+                    if v2 == variant:
+                        continue
+                    run2 = an.run(q, vi, d, variant=v2,
+                                  extra_key=('kind', mode))
+                    n_kind[0] += 1
+                    _check_run(rep, fn, run2)
+                    for s in run2.I.sites:
+                        if s.rule in ('K-truth', 'K-inarr') and \
+                                s.status == 'violation':
+                            rep.violation('A-kind', s.where, s.construct,
+                                          s.detail + ' [%s]' % run2.tag(),
+                                          line=getattr(s.node, 'lineno',
+                                                       None),
+                                          file=s.mod.path if s.mod else None)
+                    if run.returns and not run2.returns and run2.I.raises:
+                        rep.violation(
+                            'A-kind', q, 'accepted kinds of %s' % sorted(
+                                k_ for k_ in v2 if v2[k_] != variant[k_]),
+                            'the call %s raises %s on every path, while the '
+                            'same call with %s returns' % (
+                                run2.tag(), sorted({x[1] for x in
+                                                    run2.I.raises}),
+                                run.tag()), line=fn.node.lineno,
+                            file=fn.module.path)
+                    else:
+                        rep.ok('A-kind', q, 'other argument kinds (%s)'
+                               % run2.tag())
     from .. import rules_api as _RA
     _RA.check_memoised(prog, rep, modules=None)
+    rep.floor('A-kind', 100, 'calls with the other documented argument kind')
     rep.floor('A-fn', 90, 'public functions analysed')
     rep.floor('A-mut', 60, 'write sites classified')
     rep.floor('A-ret', 90, 'functions whose returns were classified')
     rep.notes.append('functions analysed: %d' % n_funcs)
+
+
+def _other_kind(x, mode):
+    if not isinstance(x, str):
+        return x
+    if mode == 'ashape':
+        return 'ashape' if x == 'shape' else x
+    if mode == 'arr0':
+        return 'arr0' if (x in ('num', 'abs', 'rel') or
+                          x.startswith('num:')) else x
+    if mode == 'npint':
+        return 'npint:' + x[4:] if x.startswith('int:') else x
+    return x
 
 
 def _check_run(rep, fn, run):
